@@ -28,6 +28,16 @@ def oracle(env, ev):
                         'than its lost-worker timeout %.3f' % (
                             j, rec['lost_reported_at'] - det, lim))
     if ev and ev[0] == 'tick':
+        members = [p.pid for p in env.pool._pool]
+        for rec in env.jobs:
+            for p in rec['parts'].values():
+                if p.get('state') == 'lost' and 'detected_at' not in p and \
+                        p.get('pid') not in members and rec['h'] is not None \
+                        and p.get('pid') in rec['h'].worker_pids():
+                    # reaped, and the parent has processed the accept
+                    # message that names the dead process as the owner:
+                    # from this round on the parent can know
+                    p['detected_at'] = now
         # a supervision round has just run: nothing stays unreported once
         # its timeout has passed (strict comparison in the code: a round
         # exactly at the timeout may defer to the next)
@@ -39,9 +49,12 @@ def oracle(env, ev):
             if rec['kind'] == 'imap_unordered':
                 continue      # reported item by item: see final()
             ready = h._ready if rec['kind'].startswith('imap') else h.ready()
-            # (measured from the first detection, not from whatever instant
-            # the handle's mark carries now)
-            det = rec.get('lost_seen') if wl else None
+            # measured from the ground truth, not from whatever instant the
+            # handle's mark carries now: the supervision round that reaped
+            # the worker holding a part that is still unfinished
+            dets = [p['detected_at'] for p in rec['parts'].values()
+                    if p.get('state') == 'lost' and 'detected_at' in p]
+            det = min(dets) if (wl and dets) else None
             if wl and not ready and det is not None and \
                     now - det > h._lost_worker_timeout + 1e-9:
                 sig = None
